@@ -683,8 +683,10 @@ def generate(rng, with_objects=None):
                 b = int_operand(depth - 1)
             if isinstance(a, Const) and isinstance(b, Const):
                 a = leaf(0)
-            if rng.random() < 0.3 and not isinstance(b, Const):
-                a, b = b, a  # constant on the left: reversed operator
+            if rng.random() < 0.35 and op in ("+", "-", "*") and not isinstance(a, Const):
+                # constant on the left: reflected operator (__radd__/__rsub__/__rmul__), incl. the identity
+                # candidates 0 + x, 0 - x, 1 * x
+                a, b = Const(rng.choice([0, 0, 1, 1, 2, -1, 3])), a
             feats.add("operator" + op)
             return Bin(op, a, b)
         if r < 0.78:
